@@ -27,6 +27,14 @@ KERNELS = [
     ("skglm.solvers.group_prox_newton", "_descent_direction"),
 ]
 
+# backtracking line searches (observation only): (module, name, index of Xw, index of X @ direction)
+LINE_SEARCHES = [
+    ("skglm.solvers.prox_newton", "_backtrack_line_search", 3, 8),
+    ("skglm.solvers.prox_newton", "_backtrack_line_search_s", 5, 10),
+    ("skglm.solvers.group_prox_newton", "_backtrack_line_search", 3, 8),
+]
+LS_LAST_STEP = 2.0 ** -19        # the 20th and last trial step
+
 
 class Seams:
     """One instance per simulated solver call."""
@@ -40,6 +48,8 @@ class Seams:
         self.n_argpartition = 0
         self.n_solve = 0
         self.n_epochs = 0
+        self.n_linesearch = 0
+        self.ls_exhausted = 0    # line searches that ended on their last trial step
         self.ws_sizes = []
         self.aa_events = []      # (k, outcome, sum_abs_c)
         self.fired = {}
@@ -117,6 +127,34 @@ class Seams:
         wrapped.__wrapped__ = fn
         return wrapped
 
+    def _ls_wrap(self, fn, i_Xw, i_Xd):
+        """Which step did the line search end on?  Read off the in-place model fit:
+        Xw_after - Xw_before = step * (X @ direction)."""
+        seams = self
+
+        def wrapped(*a, **kw):
+            try:
+                before = np.array(a[i_Xw], dtype=float)
+                Xd = np.asarray(a[i_Xd], dtype=float)
+            except Exception:
+                return fn(*a, **kw)
+            out = fn(*a, **kw)
+            seams.n_linesearch += 1
+            try:
+                if Xd.size and np.all(np.isfinite(Xd)):
+                    k = int(np.argmax(np.abs(Xd)))
+                    if Xd[k] != 0:
+                        step = (float(a[i_Xw][k]) - before[k]) / Xd[k]
+                        if not np.isfinite(step) or step <= LS_LAST_STEP * (1 + 1e-6):
+                            seams.ls_exhausted += 1
+                else:
+                    seams.ls_exhausted += 1
+            except Exception:
+                pass
+            return out
+        wrapped.__wrapped__ = fn
+        return wrapped
+
     @contextlib.contextmanager
     def active(self):
         import importlib
@@ -132,6 +170,15 @@ class Seams:
                 continue
             setattr(mod, attr, self._count_wrap(fn))
             patched.append((mod, attr, fn))
+        for modname, attr, i_Xw, i_Xd in LINE_SEARCHES:
+            try:
+                mod = importlib.import_module(modname)
+                fn = getattr(mod, attr)
+            except (ImportError, AttributeError):
+                self.missing.append(f"{modname}.{attr}")
+                continue
+            setattr(mod, attr, self._ls_wrap(fn, i_Xw, i_Xd))
+            patched.append((mod, attr, fn))
         try:
             yield self
         finally:
@@ -143,4 +190,5 @@ class Seams:
     def summary(self):
         return dict(outer=self.n_argpartition, epochs=self.n_epochs, ws=self.ws_sizes[:8],
                     aa=[(k, o) for k, o, _ in self.aa_events[:12]],
-                    aa_n=len(self.aa_events), max_abs_c=self.max_abs_c(), fired=dict(self.fired))
+                    aa_n=len(self.aa_events), max_abs_c=self.max_abs_c(), fired=dict(self.fired),
+                    n_linesearch=self.n_linesearch, ls_exhausted=self.ls_exhausted)
